@@ -1,0 +1,60 @@
+//go:build verif
+
+package embed
+
+// Machine-checked contracts for /verif (govc). Comment-only, compiled only
+// with -tags verif; changes no behaviour.
+//
+// A file is a ghost byte array fdata(f) of length fsize(f) (see
+// /verif/contracts/extern/os.spec). Layout of a binary with embedded config:
+//   [original binary][XOR(config)][le64 len(config)][Magic]
+
+//@ axiom xor_involution: forall a int: forall b int: (a ^ b) ^ b == a
+
+//@ func XOR
+//@ prop C36
+//@ check bounds alloc
+//@ alloc-limit len(data)
+//@ loop 0 invariant -1 <= rangeindex && rangeindex < max(len(data), 1) && len(result) == len(data)
+//@ loop 0 invariant forall j in 0..rangeindex+1: result[j] == data[j] ^ XORKey[j % 32]
+//@ loop 0 invariant forall j in 0..len(data): data[j] == old(data[j])
+//@ loop 0 invariant XORKey == old(XORKey)
+//@ ensures len(result) == len(data)
+//@ ensures forall j in 0..len(data): result[j] == data[j] ^ XORKey[j % 32]
+//@ ensures XORKey == old(XORKey)
+//@ ensures forall j in 0..len(data): data[j] == old(data[j])
+
+//@ func HasEmbeddedConfig
+//@ prop C36
+//@ check bounds alloc div0
+
+//@ func ReadEmbeddedConfig
+//@ prop C36
+//@ check bounds alloc div0
+//@ alloc-limit fileSize
+//@ ensures err == nil ==> pathSize(binaryPath) >= 16
+//@ ensures err == nil ==> len(result) == le64(pathData(binaryPath), pathSize(binaryPath) - 16) && len(result) >= 1 && len(result) <= pathSize(binaryPath) - 16
+//@ ensures err == nil ==> forall j in 0..len(result): result[j] == pathData(binaryPath)[pathSize(binaryPath) - 16 - len(result) + j] ^ XORKey[j % 32]
+
+//@ func GetOriginalBinarySize
+//@ prop C36
+//@ check bounds alloc div0
+//@ alloc-limit fileSize
+//@ ensures err == nil ==> 0 <= result && result <= pathSize(binaryPath)
+
+//@ func CopyBinaryWithoutConfig
+//@ prop C36
+//@ check alloc
+//@ alloc-limit origSize
+
+//@ func AppendConfig
+//@ prop C36
+//@ check bounds alloc
+//@ ensures err == nil ==> openedForWrite(dstBinary).wlen == pathSize(srcBinary) + len(config) + 16
+//@ ensures err == nil ==> forall j in 0..pathSize(srcBinary): openedForWrite(dstBinary).wdata[j] == pathData(srcBinary)[j]
+// unclaimed (solvers return unknown within the quick timeout: the instantiation chain through three
+// appended writes and XOR's quantified postcondition is not found; the length, prefix, footer and magic
+// clauses around it are proved):
+//   ensures err == nil ==> forall k in pathSize(srcBinary)..pathSize(srcBinary)+len(config): openedForWrite(dstBinary).wdata[k] == config[k - pathSize(srcBinary)] ^ XORKey[(k - pathSize(srcBinary)) % 32]
+//@ ensures err == nil ==> le64(openedForWrite(dstBinary).wdata, pathSize(srcBinary) + len(config)) == len(config)
+//@ ensures err == nil ==> forall j in 0..8: openedForWrite(dstBinary).wdata[pathSize(srcBinary) + len(config) + 8 + j] == Magic[j]
